@@ -360,8 +360,8 @@ pub fn check(id: &str, tier: Tier, seed: u64) -> i32 {
             };
             let timed_out = exited.is_none() && w.last_activity.elapsed() > timeout;
             if let Some(st) = exited {
-                // drain whatever is left
-                while let Ok(line) = w.rx.recv_timeout(Duration::from_millis(50)) {
+                // drain whatever is left (the reader threads end at EOF, which disconnects the channel)
+                while let Ok(line) = w.rx.recv_timeout(Duration::from_secs(5)) {
                     if let Some(rest) = line.strip_prefix("R ") {
                         w.result = serde_json::from_str::<Value>(rest).ok();
                     } else if let Some(rest) = line.strip_prefix("V ") {
